@@ -47,8 +47,24 @@ pub struct Net<P: Protocol> {
     pub self_source: Vec<(SocketAddr, SocketAddr)>,
     /// connection tracking of the alias translation: (node, remote) -> alias the remote used; replies appear to come from it
     pub conntrack: Vec<((usize, SocketAddr), SocketAddr)>,
+    /// two-plane underlay (multi-homed nodes): node i is also reachable at `plane1_addr(i)`; a datagram sent to a plane-1
+    /// address is seen as coming from the sender's plane-1 address (replaces the connection tracking above)
+    pub two_planes: bool,
+    /// with `two_planes`: the nodes' own (advertised) addresses are NOT routable (like the default wildcard listen address);
+    /// node i is reachable only at `plane0_addr(i)` and `plane1_addr(i)`
+    pub real_unroutable: bool,
     /// counter that makes the salt of every call into a node different (same leading byte, so the order between nodes stays)
     pub salt_counter: std::cell::Cell<u16>,
+}
+
+/// plane-0 address of node i in a two-plane underlay whose nodes advertise an unroutable address
+pub fn plane0_addr(i: usize) -> SocketAddr {
+    format!("[fd00:0::{}]:{}", i + 1, i + 1).parse().unwrap()
+}
+
+/// plane-1 address of node i in a two-plane underlay
+pub fn plane1_addr(i: usize) -> SocketAddr {
+    format!("[fd00:1::{}]:{}", i + 1, i + 1).parse().unwrap()
 }
 
 pub fn addr_of(port: u16) -> SocketAddr {
@@ -82,6 +98,8 @@ impl<P: Protocol> Net<P> {
             aliases: vec![],
             self_source: vec![],
             conntrack: vec![],
+            two_planes: false,
+            real_unroutable: false,
             salt_counter: std::cell::Cell::new(0),
         }
     }
@@ -137,6 +155,14 @@ impl<P: Protocol> Net<P> {
     }
 
     pub fn node_index(&self, addr: &SocketAddr) -> Option<usize> {
+        if self.two_planes {
+            if let Some(i) = (0..self.addrs.len()).find(|i| plane1_addr(*i) == *addr || (self.real_unroutable && plane0_addr(*i) == *addr)) {
+                return Some(i);
+            }
+            if self.real_unroutable {
+                return None;
+            }
+        }
         self.addrs.iter().position(|a| a == addr).or_else(|| self.aliases.iter().find(|(a, _)| a == addr).map(|(_, i)| *i))
     }
 
@@ -165,14 +191,26 @@ impl<P: Protocol> Net<P> {
             return None;
         }
         let mut w = w;
-        if self.addrs[i] != w.to {
+        if self.two_planes {
+            if let Some(sender) = self.addrs.iter().position(|a| *a == w.from) {
+                if w.to == plane1_addr(i) {
+                    w.from = plane1_addr(sender);
+                } else if w.to == plane0_addr(i) {
+                    w.from = plane0_addr(sender);
+                } else if self.real_unroutable {
+                    self.lost_to_nowhere += 1;
+                    return None;
+                }
+            }
+        } else if self.addrs[i] != w.to {
             // reached through an alias: remember it, replies to that remote will carry the alias as source
             let key = (i, w.from);
             if !self.conntrack.iter().any(|(k, _)| *k == key) {
                 self.conntrack.push((key, w.to));
             }
         }
-        if let Some(sender) = self.addrs.iter().position(|a| *a == w.from) {
+        if self.two_planes {
+        } else if let Some(sender) = self.addrs.iter().position(|a| *a == w.from) {
             if let Some((_, alias)) = self.conntrack.iter().find(|((n, remote), _)| *n == sender && *remote == w.to) {
                 if sender != i {
                     w.from = *alias;
